@@ -185,7 +185,9 @@ ExitCtx ==
   /\ prog' = [prog EXCEPT !.acyclic = ~Stuck]
   /\ stage' = "done" /\ Feed(rt') /\ UNCHANGED hist
 Next == AddComp \/ StartRun \/ (\E c \in Comps : Step(c)) \/ Timeout \/ ExitCtx
-Spec == Init /\ [][Next]_vars /\ WF_vars((\E c \in Comps : Step(c)) \/ ExitCtx)
+\* every run of the environment ends: under weak fairness of the environment's steps start_component finishes or is (legally) stuck,
+\* and the surrounding context is left
+Spec == Init /\ [][Next]_vars /\ WF_vars(Next)
 (* ------------------------------------------------ properties ----------------------------------------------------------- *)
 Mon5Ok == m5.ok
 Mon6Ok == m6.ok
@@ -198,5 +200,5 @@ OrderOnState == stage = "run" => \A c \in 1..prog.n :
 \* C06: after a step nobody waits for something that has been published
 NoLostWakeup == stage = "run" => \A c \in 1..prog.n : rt.wait[c] # NoW => MatchIdx(rt, rt.wait[c].t, rt.wait[c].n) = {}
 \* every run of the environment ends
-Finishes == <>(stage = "done" \/ stage = "gen")
+Finishes == (stage = "run") ~> (stage = "done")
 =============================================================================
